@@ -368,7 +368,7 @@ def isolate_case(check, tier, seed, idx, timeout=180):
                            env=env, capture_output=True, text=True, timeout=timeout)
     except subprocess.TimeoutExpired:
         return False, 'isolation run timed out'
-    died = r.returncode < 0 or r.returncode >= 100 or 'AddressSanitizer' in r.stderr or 'runtime error:' in r.stderr \
+    died = r.returncode < 0 or r.returncode >= 100 or 'ERROR: AddressSanitizer' in r.stderr or 'runtime error:' in r.stderr \
         or 'Fatal Python error' in r.stderr
     return died, crash_summary(r.returncode, r.stderr)
 
